@@ -215,3 +215,111 @@ class admittance_between:
         def between(b):
             return (b.node1 == n1 and b.node2 == n2) or (b.node1 == n2 and b.node2 == n1)
         return {'sum over the branches between the nodes': eq(result, total(branches, lambda b: b.element.Y if between(b) else 0))}
+
+
+# ---- network transformations for networks of any length (C16): only the named change happens
+
+from CircuitCalculator.Network import transformers as trf
+
+
+@contract('CircuitCalculator.Network.transformers.switch_ground_node', props=['C16', 'C03'], name='switch_ground_node_any_length')
+class switch_ground:
+    total = True
+
+    def inputs(g):
+        return dict(branches=g.list('b', any_branch), zero=g.label('zero'), new=g.label('new'))
+
+    def requires(branches, zero, new):
+        return valid(branches, zero)
+
+    def call(f, branches, zero, new):
+        return f(Network(branches, zero), new)
+
+    def ensures(result, branches, zero, new):
+        return {
+            'fails iff the new reference is not a node': iff(raised(result), len(branches) > 0 and not touches(branches, new)),
+            'typed failure': implies(raised(result), raised(result, nw.FloatingGroundNode)),
+            'same branches, new reference': implies(not raised(result), lambda: eq(result.branches, branches) and result.node_zero_label == new),
+        }
+
+
+@contract('CircuitCalculator.Network.transformers.remove_open_circuit_elements', props=['C16'], name='remove_open_circuit_elements_any_length')
+class remove_opens:
+    total = True
+
+    def inputs(g):
+        return dict(branches=g.list('b', any_branch), zero=g.label('zero'))
+
+    def requires(branches, zero):
+        return valid(branches, zero)
+
+    def call(f, branches, zero):
+        return f(Network(branches, zero))
+
+    def ensures(result, branches, zero):
+        def is_open(b):
+            return eq(b.element.I, 0) and eq(b.element.Y, 0)
+        kept_touches_zero = exists(branches, lambda b: not is_open(b) and (b.node1 == zero or b.node2 == zero))
+        any_kept = exists(branches, lambda b: not is_open(b))
+        return {
+            'fails only if the reference node is left without a branch': iff(raised(result), any_kept and not kept_touches_zero),
+            'typed failure': implies(raised(result), raised(result, nw.FloatingGroundNode)),
+            'only open branches disappear': implies(not raised(result), lambda: forall(branches, lambda b: implies(not is_open(b), lambda: exists(result.branches, lambda c: eq(c, b))))),
+            'nothing new appears, no open branch survives': implies(not raised(result), lambda: forall(result.branches, lambda c: not is_open(c) and exists(branches, lambda b: eq(b, c)))),
+            'same reference': implies(not raised(result), lambda: result.node_zero_label == zero),
+        }
+
+
+def norton_branch(g):
+    """Elements stored with (Z, V): impedances, ideal and lossy voltage sources, shorts (no division in their V and Z)."""
+    kind = g.choice('kind', ['Z', 'V', 'short'])
+    name = g.label('id')
+    e = elm.impedance(name, g.complex('Z')) if kind == 'Z' else (elm.voltage_source(name, g.complex('V'), g.complex('Zi')) if kind == 'V' else elm.short_circuit(name))
+    return Branch(g.label('n1'), g.label('n2'), e)
+
+
+@contract('CircuitCalculator.Network.transformers.short_circuitify_voltage_sources', props=['C16', 'C04'], name='short_circuitify_voltage_sources_any_length')
+class zero_voltage_sources:
+    """Branch i keeps its terminals, identifier and impedance; its source voltage becomes zero; every other element is unchanged
+    (elements of the (Z, V) family; the (Y, I) family is covered on the bounded topologies)."""
+    def inputs(g):
+        return dict(branches=g.list('b', norton_branch), zero=g.label('zero'))
+
+    def requires(branches, zero):
+        return valid(branches, zero)
+
+    def call(f, branches, zero):
+        return f(Network(branches, zero))
+
+    def ensures(result, branches, zero):
+        def same_place(c, b):
+            return c.node1 == b.node1 and c.node2 == b.node2 and c.id == b.id
+
+        def zeroed(c, b):
+            return same_place(c, b) and (eq(c.element, b.element) if eq(b.element.V, 0) else (eq(c.element.V, 0) and eq(c.element.Z, b.element.Z)))
+        return {
+            'one branch per branch, same reference': len(result.branches) == len(branches) and result.node_zero_label == zero,
+            'branch i: same place, voltage zeroed, impedance kept, non-sources untouched': forall(indices(branches), lambda i: zeroed(result.branches[i], branches[i])),
+        }
+
+
+@contract('CircuitCalculator.Network.transformers.open_circuitify_current_sources', props=['C16', 'C04'], name='open_circuitify_current_sources_any_length')
+class zero_current_sources:
+    """(Y, I) family: admittances, ideal and lossy current sources, opens."""
+    def inputs(g):
+        return dict(branches=g.list('b', finite_branch), zero=g.label('zero'))
+
+    def requires(branches, zero):
+        return valid(branches, zero)
+
+    def call(f, branches, zero):
+        return f(Network(branches, zero))
+
+    def ensures(result, branches, zero):
+        def zeroed(c, b):
+            same_place = c.node1 == b.node1 and c.node2 == b.node2 and c.id == b.id
+            return same_place and (eq(c.element, b.element) if eq(b.element.I, 0) else (eq(c.element.I, 0) and eq(c.element.Y, b.element.Y)))
+        return {
+            'one branch per branch, same reference': len(result.branches) == len(branches) and result.node_zero_label == zero,
+            'branch i: same place, current zeroed, admittance kept, non-sources untouched': forall(indices(branches), lambda i: zeroed(result.branches[i], branches[i])),
+        }
